@@ -318,4 +318,42 @@ theorem expired_snapshot_skipped_unsound :
   revert this
   decide
 
+/-- OPEN FINDING (known_findings.d/C05.json `silent-dup`, corpus/C05/duplicate_copy_damaged.ops): every theorem above speaks about ONE
+look-up `lk` — check's own index — and "restores" means "reads back through that same look-up".  When a blob is stored twice (chunk 3 in the
+data packs 30 and 31, both indexed: one backup writing two files of equal content through different packer threads) the look-up of another
+reader's index may return the other copy (any choice among duplicates satisfies `LkSound`).  Pack 31 is damaged: -/
+def dupRepo : Repo :=
+  { snapsOk := true, snaps := [{ tree := 1, authentic := true }], indexOk := true,
+    index := [{ packs := [{ id := 10, blobs := [tblob 1], timeSet := true, size := none },
+                           { id := 30, blobs := [dblob 3], timeSet := true, size := none },
+                           { id := 31, blobs := [dblob 3], timeSet := true, size := none }], toDelete := [] }],
+    files := [treeFile 10 10 1 [fileNode [3]], dataFile 30 3, damagedData 31 3] }
+
+/-- the last matching entry in index-file order — as admissible an index as `lkFirst` -/
+def lkLast (r : Repo) : Lookup := lkOf (livePacks r).reverse
+
+theorem lkLast_sound (r : Repo) : LkSound r (lkLast r) := by
+  intro t id e h
+  obtain ⟨p, hp, rest⟩ := lkOf_sound (livePacks r).reverse t id e h
+  exact ⟨p, List.mem_reverse.mp hp, rest⟩
+
+/-- … check, whose look-up finds the copy in pack 30, reads pack 30 only and is clean; the reader whose look-up finds the copy in pack 31
+cannot restore the snapshot.  (`check_ok_implies_restorable_partial` is not contradicted: through check's own look-up everything reads back.) -/
+theorem duplicate_copy_unread :
+    LkSound dupRepo (lkFirst dupRepo) ∧ LkSound dupRepo (lkLast dupRepo) ∧
+    check z0 true dupRepo (lkFirst dupRepo) 9 = .findings [] ∧
+    (∀ s ∈ dupRepo.snaps, RestoresCorrectly dupRepo (lkFirst dupRepo) s.tree) ∧
+    ¬ RestoresCorrectly dupRepo (lkLast dupRepo) 1 := by
+  have hc : check z0 true dupRepo (lkFirst dupRepo) 9 = .findings [] := by decide
+  refine ⟨lkFirst_sound _, lkLast_sound _, hc, check_sound (lkFirst_sound _) hc, fun h => ?_⟩
+  obtain ⟨_, nodes, hrd, hall⟩ := h 1 Reach.root
+  have hr : readTree dupRepo (lkLast dupRepo) 1 = some [fileNode [3]] := by decide
+  rw [hr] at hrd
+  cases hrd
+  obtain ⟨ids, hc', hd⟩ := hall (fileNode [3]) (by simp) rfl
+  cases hc'
+  have := blobOkB_complete (hd 3 (by simp))
+  revert this
+  decide
+
 end Rustic.Props.C05
